@@ -686,3 +686,40 @@ def arg_resolution(ctx):
     ctx.check(bool(fo) and unparse(fo[0].value) == "hasattr(filename, 'write')", fo[0] if fo else f, "file objects are recognised by their write method")
     rej = [n for n in nodes_of_type(f, ast.If) if unparse(n.test) == "not is_filename and (not is_fileobj)" and any(isinstance(x, ast.Raise) for x in n.body)]
     ctx.check(bool(rej), rej[0] if rej else f, "other targets are rejected")
+
+
+def mode_typestate(ctx):
+    """who may set BinaryZlibFile._mode, and to what"""
+    allowed = {
+        "__init__": {"_MODE_CLOSED", "_MODE_READ", "_MODE_WRITE"},
+        "_fill_buffer": {"_MODE_READ_EOF"},
+        "_rewind": {"_MODE_READ"},
+        "close": {"_MODE_CLOSED"},
+    }
+    cls = ctx.repo.cls(CP, Z)
+    n = 0
+    for m in cls.body:
+        if not isinstance(m, ast.FunctionDef):
+            continue
+        for a in nodes_of_type(m, ast.Assign):
+            if "self._mode" in stores_to(a):
+                n += 1
+                v = dotted(a.value)
+                ctx.check(m.name in allowed and v in allowed[m.name], a, "%s sets the mode to %s (allowed transition)" % (m.name, v),
+                          "%s sets the stream mode to %s: not one of the mode transitions of the read/write state machine" % (m.name, v))
+    ctx.floor(n, 6, "stores to BinaryZlibFile._mode")
+    consts = _module_bytes(ctx.repo.mod(CP))
+    vals = [consts.get(k) for k in ("_MODE_CLOSED", "_MODE_READ", "_MODE_READ_EOF", "_MODE_WRITE")]
+    ctx.check(None not in vals and len(set(vals)) == 4, cls, "the four mode constants are distinct (%s)" % vals, "mode constants are not pairwise distinct: %s" % vals)
+    fb = ZF(ctx, "_fill_buffer")
+    g = cfg_of(fb)
+    for a in nodes_of_type(fb, ast.Assign):
+        if "self._mode" in stores_to(a):
+            ctx.check(any(isinstance(x, ast.ExceptHandler) and handler_catches(x, ["EOFError"]) for x in ancestors(a)), a, "READ -> READ_EOF only in the end-of-file handler")
+    init = ZF(ctx, "__init__")
+    gi = cfg_of(init)
+    from ..core import cond_holds
+    for a in nodes_of_type(init, ast.Assign):
+        if "self._mode" in stores_to(a) and dotted(a.value) in ("_MODE_READ", "_MODE_WRITE"):
+            want = "mode == 'rb'" if dotted(a.value) == "_MODE_READ" else "mode == 'wb'"
+            ctx.check(cond_holds(gi.conditions_at(gi.nodes_of(a)), want, True), a, "%s iff %s" % (dotted(a.value), want))
